@@ -50,7 +50,15 @@ static const JNode *member(const JNode &n, const std::string &key) {
     }
     return nullptr;
 }
+#if defined(QENTEM_AUTO_ESCAPE_HTML) && (QENTEM_AUTO_ESCAPE_HTML == 0)
+#define C02_ESCAPE_ON 0
+#else
+#define C02_ESCAPE_ON 1
+#endif
 static std::string esc_html(const std::string &s) {
+    if (!C02_ESCAPE_ON) {
+        return s; // a build with QENTEM_AUTO_ESCAPE_HTML=0 prints {var:} like {raw:}; everything else stays as documented
+    }
     // the five entities; an '&' that already starts one of them is kept (idempotent) - validated by C03
     static const char *ent[5] = {"&amp;", "&lt;", "&gt;", "&quot;", "&apos;"};
     std::string        o;
@@ -1113,6 +1121,62 @@ int main(int argc, char **argv) {
             });
         };
         plan.stages.push_back(st);
+        {
+            // 16/32-bit builds: a subscript unit above 0xFF whose low byte is an ASCII digit is no digit, the tag stays as it is
+            vx::Stage sw;
+            sw.name   = "wide-subscripts";
+            sw.chunks = 1;
+            sw.fn     = [](int64_t, vx::Ctx &ctx) {
+                auto run = [&](auto tag, const char *wn) {
+                    using C = decltype(tag);
+                    Value<C> v = build_value<C>(specs[0]); // "arr":[1,2], "b":[3,1,{..}], "nums":[3,1,2]
+                    for (const char *head : {"{var:arr[", "{raw:nums[", "{var:b[2][", "<loop set=\"arr[", "{math:1+{var:nums["}) {
+                        for (char32_t u : {char32_t(0x131), char32_t(0x430), char32_t(0x0660), char32_t(0xFF11), char32_t(sizeof(C) == 2 ? 0x2131 : 0x10131)}) {
+                            for (int form = 0; form < 3; form++) {
+                                if (!ctx.next()) {
+                                    continue;
+                                }
+                                std::basic_string<C> t;
+                                for (const char *p = head; *p; p++) {
+                                    t.push_back(C(*p));
+                                }
+                                if (form == 1) {
+                                    t.push_back(C('0')); // a real digit in front: "0<unit>"
+                                }
+                                t.push_back(C(u));
+                                if (form == 2) {
+                                    t.push_back(C('1'));
+                                }
+                                const std::string h = head;
+                                const char       *tail = h[0] == '<' ? "]\" value=\"w\">x</loop>" : (h.find("{math:") == 0 ? "]}}" : (h.find("b[2][") != std::string::npos ? "]}" : "]}"));
+                                for (const char *p = tail; *p; p++) {
+                                    t.push_back(C(*p));
+                                }
+                                StringStream<C> ss;
+                                Template::Render(t.data(), SizeT(t.size()), v, ss);
+                                ctx.acc.count("states");
+                                ctx.acc.count("evals");
+                                std::basic_string<C> want = (h[0] == '<') ? std::basic_string<C>() : t; // a loop over nothing prints nothing
+                                std::basic_string<C> got(ss.First() ? ss.First() : t.data(), ss.Length());
+                                if (got != want) {
+                                    std::string g;
+                                    for (C c : got) {
+                                        g += (c >= 0x20 && c < 0x7f) ? std::string(1, char(c)) : ("\\u{" + std::to_string((unsigned)c) + "}");
+                                    }
+                                    char key[160];
+                                    snprintf(key, sizeof key, "%s wide subscript: %s + U+%04X (form %d)", wn, head, (unsigned)u, form);
+                                    ctx.fail(key, "rendered '" + g + "'; a unit above 0xFF is no decimal digit, so the subscript names no item");
+                                }
+                            }
+                        }
+                    }
+                };
+                run(char16_t(0), "char16_t");
+                run(char32_t(0), "char32_t");
+                run(wchar_t(0), "wchar_t");
+            };
+            plan.stages.push_back(sw);
+        }
         {
             // loop heads whose attributes start more than 255 units behind '<loop' (the tag record keeps their offsets)
             vx::Stage s3;
